@@ -17,7 +17,7 @@ impl Prop for C06 {
         "C06"
     }
     fn rule(&self) -> String {
-        "graphs of all 8 kinds, n in 0..=10 and 21..=34 (parallel path), shapes / shuffled insertion order as C04, unweighted / positive dyadic / tie-rich weights; each graph is evaluated for weighted x wf_improved, and (weighted single-edge graphs) once more after an existing edge was replaced by a heavier one under KeepLast between two calls. Oracle: Floyd-Warshall over the cheapest parallel edge; for u, R = nodes with finite distance TO u (incoming on directed graphs), value (|R|-1)/sum d(v,u), times (|R|-1)/(n-1) with wf_improved, 0 when |R| = 1; tolerance 1e-12 relative (dyadic sums are exact). Exhaustive block: all graphs on <= 3 nodes of the single-edge kinds. Non-trivial = a directed graph where some node's incoming and outgoing distance sums differ, or a disconnected graph evaluated with wf_improved; distinct = distinct serialised case.".into()
+        "graphs of all 8 kinds, n in 0..=10 and 21..=34 (parallel path), shapes / shuffled insertion order as C04, unweighted / positive dyadic / tie-rich weights; each graph is evaluated for weighted x wf_improved, and (weighted single-edge graphs) once more after an existing edge was replaced by a heavier one under KeepLast between two calls. Oracle: Floyd-Warshall over the cheapest parallel edge; for u, R = nodes with finite distance TO u (incoming on directed graphs), value (|R|-1)/sum d(v,u), times (|R|-1)/(n-1) with wf_improved, 0 when |R| = 1; tolerance 1e-12 relative (dyadic sums are exact). Exhaustive block: all graphs on <= 3 nodes of the single-edge kinds. Non-trivial = a directed graph where some node's incoming and outgoing distance sums differ, or a disconnected graph evaluated with wf_improved; distinct = distinct serialised case. Name-type independence: for every graph of <= 12 nodes and one in eight up to 64 (34 for path-returning calls) the same calls are repeated with a user-defined node-name type (lossy Display, heavily colliding Hash, Ord unrelated to insertion order) and must give the same order-independent results as with String names (floats within 1e-9).".into()
     }
     fn assumptions(&self) -> Vec<String> {
         vec!["positive weights".into()]
@@ -117,6 +117,7 @@ impl Prop for C06 {
         out.class(format!("kind_{}", ng.spec().label()));
         out.class(format!("wmode_{}", case.wmode));
         out.class(if n > 260 { "large_graph_300_to_3000_nodes" } else if n <= 10 { "n<=10" } else if n <= 20 { "n_11_to_20" } else if n <= 34 { "n>20_parallel_path" } else { "boundary_size_35_to_255" });
+        crate::altkey::maybe_check(&ng, crate::altkey::Group::Closeness, case.perm as u64, &mut out);
         out.nontrivial = nontrivial;
         out
     }
